@@ -38,6 +38,8 @@ package bufconn
 //@   ghost signalled bool = false
 //@   at after call Wait#1: havoc p.buf, p.r, p.w, p.closed, p.writeClosed, p.rtimedout, p.wtimedout
 //@   at after call Wait#1: assume monitor-invariant-holds-when-the-lock-is-reacquired: ringOK(p) && p.buf.ref == old(p.buf.ref) && cap(p.buf) == old(cap(p.buf))
+//@   at call Wait#1: assert a-read-waits-only-while-it-has-nothing-to-return: !p.closed && !p.writeClosed && !p.rtimedout && pending(p) == 0
+//@   at call full#1: assert data-is-delivered-only-on-an-open-end-that-holds-data: !p.closed && pending(p) > 0
 //@   at call full#1: assume for-every-stream-history-that-agrees-with-the-ring-here: hist(p, rd, strm)
 //@   at call full#1: ghost wasFull := pending(p) == cap(p.buf)
 //@   at call Signal#1: ghost signalled := true
@@ -72,6 +74,8 @@ package bufconn
 //@   at after call Wait#1: havoc p.buf, p.r, p.closed, p.writeClosed, p.rtimedout, p.wtimedout
 //@   at after call Wait#1: ghost rd := rd + (pb - pending(p))
 //@   at after call Wait#1: assume while-the-writer-waits-only-readers-run-and-they-keep-the-ring-consistent: ringOK(p) && p.buf.ref == old(p.buf.ref) && cap(p.buf) == old(cap(p.buf)) && pending(p) <= pb && hist(p, rd, strm)
+//@   at call Wait#1: assert a-write-waits-only-while-it-can-neither-fail-nor-proceed: !p.closed && !p.writeClosed && !p.wtimedout && pending(p) == cap(p.buf)
+//@   at call copy#1: assert bytes-are-accepted-only-on-an-open-pipe-with-room: !p.closed && !p.writeClosed && pending(p) < cap(p.buf)
 //@   at call copy#1: ghost chunkOnEmpty := pending(p) == 0
 //@   at call copy#1: ghost signalled := false
 //@   at call Signal#1: ghost signalled := true
